@@ -82,7 +82,7 @@ package bac
 // used in the request, and the installed session carries the keys and counter ICAO 9303-11 §4.3.3 prescribes.
 //@ func (bac *BAC) DoBAC
 //@   props C05 C11
-//@   requires bac != nil && bac.password != nil && validNfc(bac.nfcSession)
+//@   requires bac != nil && bac.password != nil && validNfc(bac.nfcSession) && bac.randomBytesFn != nil
 //@   ensures "skipped-for-other-password-types": bac.password.PasswordType != 1 ==> result == nil && err == nil && bac.nfcSession.sm == old(bac.nfcSession.sm)
 //@   ensures "fail-closed-no-session-installed": (result == nil || !result.Success) ==> bac.nfcSession.sm == old(bac.nfcSession.sm)
 //@   ensures "success-iff-no-error": result != nil ==> (result.Success == (err == nil))
